@@ -1,6 +1,7 @@
 """Common driver of C02, C03, C05, C14: random L1 histories inside the envelope (any failure is a violation)
 plus the fixed finding scenarios (their failures carry the finding's tag in the signature)."""
 from props.l1common import *
+from props import l1model
 import l1
 
 MONITORS = {
@@ -29,7 +30,7 @@ def run_prop(prop, tier, seed, replay, nquick, nthorough, extra_cases=None, rule
     ck = Check(prop, tier, seed)
     ck.trusted = L1_TRUSTED
     ck.rule = rule
-    ck.prove([f"Props/{prop}.vo"])
+    ck.prove([f"Props/{prop}.vo", "Run/Eval_L1.vo"])
     rng = rng_for(seed, prop)
     cases = []
     if replay:
@@ -72,6 +73,31 @@ def run_prop(prop, tier, seed, replay, nquick, nthorough, extra_cases=None, rule
             seen.add(s)
             ck.fail(s, msg, {"tag": tag, "input": case, "intents": intents, "views": views, "event": i,
                              "impl_event": {k: v for k, v in (ob[i] if i < len(ob) else {}).items() if k != "tables"}})
+    model_correspondence(ck, [(c[1], ob) for c, ob in zip(cases, obs)], limit=(150 if tier == "quick" else 1200), name=prop)
     ck.distribution = dict(sorted(dist.items(), key=lambda kv: -kv[1])[:40])
     ck.samples = [{"events": [(it.get("op"), it.get("kind"), it.get("expect")) for it in c[2]]} for c in cases[-3:]]
     return ck, (cases, obs)
+
+
+def model_correspondence(ck, pairs, limit, name):
+    """Coq agent model (Model/Agent.v) replayed on the histories the implementation ran: replies, sequence numbers,
+    number of datapath commands, gauge, end markers, shutdown after every event; tables, store, pools, PFD tables at
+    the sampled events (see tools/props/l1model.py)."""
+    terms = []
+    kept = []
+    for case, ob in pairs[:limit]:
+        t = l1model.case_term(case, ob)
+        if t is not None:
+            terms.append(t)
+            kept.append((case, ob))
+    ck.notes["model_evaluations"] = len(terms)
+    try:
+        idx = coq_eval_shards("L1" + name, l1model.HEADER, terms, shard=6, timeout=1500)
+    except RuntimeError as e:
+        ck.tie("correspondence: Coq agent model = implementation on the replayed histories", False, str(e)[-800:])
+        return
+    for i in idx[:5]:
+        ck.mismatch("agent model and implementation disagree on a replayed history",
+                    {"input": kept[i][0], "impl_last_event": {k: v for k, v in (kept[i][1][-1] if kept[i][1] else {}).items() if k != "tables"}})
+    ck.tie("correspondence: Coq agent model = implementation on the replayed histories", not idx,
+           f"{len(idx)} of {len(terms)} histories disagree" if idx else f"{len(terms)} histories")
